@@ -13,6 +13,8 @@ import PlasVerif.Driver.C10
 import PlasVerif.Driver.C11
 import PlasVerif.Driver.C13
 import PlasVerif.Driver.C14
+import PlasVerif.Driver.C06
+import PlasVerif.Driver.C05
 /-!
 Line-protocol driver: one request per line `<property> <stream> <payload…>`, one
 answer per line `<model output>\t<spec output or ->[\t<aux>]`.  Imports only `Model`,
@@ -38,6 +40,8 @@ def dispatch (line : String) : String :=
   | "C11" :: r => C11.handle r
   | "C13" :: r => C13.handle r
   | "C14" :: r => C14.handle r
+  | "C06" :: r => C06.handle r
+  | "C05" :: r => C05.handle r
   | _ => "bad-op"
 
 partial def loop (h : IO.FS.Stream) (out : IO.FS.Stream) : IO Unit := do
